@@ -28,7 +28,10 @@ BaseTexts(L) ==
       Closers == <<".", "!", "?", ",", ";", ":", "...", ")">>
       closed == [j \in 1..Len(W) |-> W[j] \o Closers[(j % Len(Closers)) + 1]]
                 \o [r \in 1..Params.randn |-> rnd[r] \o Closers[(r % Len(Closers)) + 1]]
-  IN (IF Params.pairs THEN singles \o pairs ELSE singles) \o AmbigParts[L] \o rnd \o closed
+      CW == CoreWords[L]
+      corepairs == [j \in 1..(Len(CW) * Len(CW) * 2) |-> LET a == ((j - 1) \div 2) \div Len(CW)  b == ((j - 1) \div 2) % Len(CW) IN
+                      CW[a + 1] \o (IF j % 2 = 0 THEN " " ELSE ", ") \o CW[b + 1]]
+  IN (IF Params.pairs THEN singles \o pairs ELSE singles) \o AmbigParts[L] \o rnd \o closed \o corepairs
 
 \* ---- case variants ------------------------------------------------------
 CaseVariants(s) == <<s, Upper(s), Alternate(s, TRUE), Alternate(s, FALSE), Capitalise(s)>>
@@ -62,6 +65,16 @@ TwinTok(toks, i) == IF toks[i] # "o" THEN toks[i]
 ForceO(toks, x) == LET nw == (Len(toks) + 1) \div 2  k == 2 * ((x \div 128) % nw) + 1 IN [toks EXCEPT ![k] = "o"]
 \* the lone o, with nothing / blanks / punctuation around it
 O18Fixed == << <<"o">>, <<"o", ".">>, <<"(", "o", ")">>, <<" ", "o", " ">>, <<"o", ", ">>, <<"\n", "o">>, <<"O">>, <<"o", " ", "o">>, <<"o", "!">> >>
+O18Core == <<"o", "one", "twenty", "third", "and", "point", "apples">>
+O18CoreSeps == <<" ", ", ", " - ">>
+\* k enumerates every text of 3 words over O18Core x separators that contains an o
+O18CoreToks(k) == LET nw == Len(O18Core)  ns == Len(O18CoreSeps)
+                      w(d) == O18Core[((k \div Pow(nw, d - 1)) % nw) + 1]
+                      r == k \div Pow(nw, 3)
+                      sp(d) == O18CoreSeps[((r \div Pow(ns, d - 1)) % ns) + 1]
+                  IN <<w(1), sp(1), w(2), sp(2), w(3)>>
+O18CoreCount == Pow(Len(O18Core), 3) * Pow(Len(O18CoreSeps), 2)
+O18CoreCase(k) == LET toks == O18CoreToks(k) IN <<Concat(toks), Concat([i \in 1..Len(toks) |-> TwinTok(toks, i)])>>
 O18Case(x, n) == LET toks == IF n = 0 THEN O18Fixed[(x % Len(O18Fixed)) + 1] ELSE ForceO(Alt(x, n, TRUE), x) IN <<Concat(toks), Concat([i \in 1..Len(toks) |-> TwinTok(toks, i)])>>
 
 \* ---- C10: A S B -----------------------------------------------------------
@@ -75,6 +88,9 @@ AsbCases(L) == LET P == Parts(L) S == StrongSep[L] n == Len(P) IN
           b == IF fam THEN F[((Lcg(x) \div 16) % Len(F)) + 1] ELSE P[((Lcg(x) \div 16) % n) + 1]
           s == S[(j % Len(S)) + 1]
       IN <<a \o s \o b, a, b, s>>]
+   \o LET CW == CoreWords[L] \o SubSeq(AmbigParts[L], 1, IF Len(AmbigParts[L]) < 4 THEN Len(AmbigParts[L]) ELSE 4)  m == Len(CW) IN
+      [j \in 1..(m * m * Len(S)) |-> LET a == CW[(((j - 1) \div Len(S)) \div m) + 1]  b == CW[(((j - 1) \div Len(S)) % m) + 1]
+                                         s == S[((j - 1) % Len(S)) + 1] IN <<a \o s \o b, a, b, s>>]
 
 \* every text of a case runs on its own, newly created interpreter: the parts A and B are reference results that the
 \* run on A S B cannot have influenced
@@ -85,6 +101,7 @@ ForLang(L, base) ==
   IF Kind = "case" THEN LET B == BaseTexts(L) IN [j \in 1..Len(B) |-> Req(L, base + j, CaseVariants(B[j]), "")]
   ELSE IF Kind = "ws" THEN LET B == BaseTexts(L) IN [j \in 1..Len(B) |-> Req(L, base + j, WsVariants(B[j], Start(Seed, 3, j)), "")]
   ELSE IF Kind = "o18" THEN [j \in 1..Params.cases |-> Req("en", base + j, IF j <= 9 THEN O18Case(j - 1, 0) ELSE O18Case(Start(Seed, 18, j), 3 + (j % 7)), "")]
+                            \o [k \in 1..O18CoreCount |-> Req("en", base + Params.cases + k, O18CoreCase(k - 1), "")]
   ELSE LET C == AsbCases(L) IN [j \in 1..Len(C) |-> Req(L, base + j, <<C[j][1], C[j][2], C[j][3]>>, C[j][4])]
 
 RECURSIVE All(_, _)
